@@ -313,8 +313,15 @@ func arithOp(op token.Token, a, b string, T types.Type, ca, cb *big.Int) (res st
 	}
 	switch op {
 	case token.ADD, token.SUB, token.MUL:
-		o := map[token.Token]string{token.ADD: "+", token.SUB: "-", token.MUL: "*"}[op]
-		e := "(" + o + " " + a + " " + b + ")"
+		var e string
+		switch op {
+		case token.ADD:
+			e = add(a, b)
+		case token.SUB:
+			e = sub(a, b)
+		default:
+			e = "(* " + a + " " + b + ")"
+		}
 		if uns {
 			return wrapU(e, w), "", "", nil
 		}
